@@ -387,7 +387,7 @@ def main(tier, seed_):
         for path in runner.replay_files(ID):
             for f in replay_case(json.load(open(path))["case"], stats):
                 stats.fail(f)
-    n = 480 if tier == "quick" else 24000
+    n = 480 if tier == "quick" else 8000
     temps = catalogue.templates("quick")
     temps = [t for t in temps if t[0].split(":")[0] in ("fold", "chain", "ter", "un")] if tier == "quick" else temps
     per = max(1, n // runner.NPROC)
